@@ -1,72 +1,53 @@
 """C13 — scientific instance files (Solomon, Li&Lim, TSPLIB CVRP/EUC_2D) are read faithfully (plugin for tools/verif.py).
 
-Python generates ABSTRACT instances, prints them in the three text grammars (random white space, header lines,
-decimal coordinates for TSPLIB), the harness feeds the text to the real read_solomon/read_lilim/read_tsplib and dumps
-the core Problem; the Coq model parses the tokenised text (vm_compute).  oracle = impl dump vs. the abstract instance
-(independent of the model); compare = impl dump vs. model.  Second stream: initial-solution text round trip."""
+Python generates ABSTRACT instances, prints them in the three text grammars (random white space incl. TAB/CR/VT/FF, header
+lines, '+' signs / leading zeros / decimal and exponent spellings of the numbers), the harness feeds the text to the real
+read_solomon/read_lilim/read_tsplib and dumps the core Problem; the Coq model reads THE SAME CHARACTERS (Model/SciText.v:
+read_line, split_whitespace, str::parse, split(':'), then the token-level readers of Model/Scientific.v) under vm_compute.
+oracle = impl dump vs. the abstract instance (independent of the model); compare = impl dump vs. model.
+Further streams: initial-solution text round trip (written text compared character by character), the std text primitives,
+sub-stream c13_bind (do capacity / time windows of the read problem bind as the file says)."""
 import math, re, struct
 from fractions import Fraction
 
 ID = 'C13'
 HARNESS = 'c13'
-COQ_IMPORTS = 'From VRP Require Import Base.Tac Model.Scientific.\nFrom Coq Require Import String.'
-MODEL_TARGETS = ['theories/Model/Scientific.vo']
+COQ_IMPORTS = 'From VRP Require Import Base.Tac Model.Scientific Model.SciText.\nFrom Coq Require Import String.'
+MODEL_TARGETS = ['theories/Model/Scientific.vo', 'theories/Model/SciText.vo']
+SUBSTREAMS = ['c13_bind']
 SIZES = {'quick': 1400, 'thorough': 12000, 'search': 6000}
 RULE = ('cases: abstract Solomon / Li&Lim / TSPLIB instances (0-8 customers or 0-4 pickup-delivery requests; coordinates mostly '
         'on a small grid so that customers share locations with each other and with the depot, sometimes large/negative; '
         'demands near the capacity; windows, service times, fleet size 1-6; TSPLIB coordinates optionally as decimals incl. '
-        'exact .5 ties; Li&Lim lines in shuffled order) printed with random white space / header lines / trailing newline, '
-        'rounded and unrounded distances; ~12% malformed texts (token dropped/replaced by a word, line dropped/duplicated/blank, '
-        'wrong key, truncated) compared on {Ok,Err,Panic}; ~25% initial-solution round trips (random complete route sets incl. '
-        'empty routes, plus hand-made init texts with junk lines / unknown ids / too many routes). '
+        'exact .5 ties; Li&Lim lines in shuffled order) printed as CHARACTERS with random white space (space, TAB, CR, VT, FF), '
+        'header lines, trailing newline, and random spellings of every number that the Rust parser of that column accepts '
+        '("+5", "007", "-0"; for the f64 route of TSPLIB also "5.", "5e0", "50e-1", "0.5e1"); rounded and unrounded distances; '
+        'every third case through the vrp-cli format registry (reader, initial-solution reader and writer of the format name; '
+        'a few unknown names); ~8% "exotic" texts (numbers at the i32 limits, doubles next to a rounding tie, inf / nan / huge '
+        'exponents in TSPLIB) compared with the model field by field; ~12% malformed texts (token dropped/replaced by a word or '
+        'an out-of-range / mis-signed number, line dropped/duplicated/blank, wrong key, truncated) compared on {Ok,Err,Panic}; '
+        '~22% initial-solution round trips (random route sets incl. empty routes, INCOMPLETE ones and ones with an id in two '
+        'routes; dyadic costs incl. ties of the 3rd decimal; hand-made init texts with junk lines / unknown ids / too many '
+        'routes / "+7" or "007" ids); ~3% the std primitives alone (read_line + split_whitespace, str::parse of i32 / usize / f64). '
         'non-trivial = distinct valid instance text with >= 2 jobs, or an init case with >= 2 routes.')
-TRUSTED = ['tokeniser (white-space split, ":" isolated, canonical integers / decimals / words) in tools/props/c13.py mirrors '
-           'str::split_whitespace, split(\':\'), trim and str::parse for the generated alphabet (space, tab, CR; no "+5", "007", "1e3", "inf")',
+TRUSTED = ['Rust string literals reach Coq unchanged (the generated case file holds the text as a Coq string literal; 7-bit ASCII only)',
+           'f64::from_str is correctly rounded (documented) - the model computes the nearest-even double of the decimal exactly; '
            'f64 sqrt is correctly rounded (IEEE-754) and equals Python math.sqrt; round(sqrt(s)) has no ties for integer s < 2^40',
-           'Jobs::new, Fleet::new and goal construction do not change the observed fields (validated on every run, not modelled)',
+           'Jobs::new, Fleet::new and goal construction do not change the observed fields (validated on every run, not modelled); '
+           'the constraints of the constructed goal are exercised by sub-stream c13_bind',
            'HashMap iteration order of the TSPLIB reader is an oracle argument of the model; comparison is canonical by job id']
-ASSUMPTIONS = ['coordinates |x| < 2^19 so that squared distances are exact in f64 and round(sqrt) is tie-free',
-               'ids, demands, times are i32 values; ids/service/fleet/capacity non-negative in well-formed instances']
+ASSUMPTIONS = ['coordinates |x| < 2^19 so that squared distances are exact in f64 and round(sqrt) is tie-free (distances are not compared on exotic texts)',
+               'ids, demands, times are i32 values; ids/service/fleet/capacity non-negative in well-formed instances',
+               'instance / solution texts are 7-bit ASCII (UTF-8 decoding and the non-ASCII white space of char::is_whitespace are outside the model)']
 
 I32_MIN, I32_MAX = -2 ** 31, 2 ** 31 - 1
 
 
-# ------------------------------------------------------------------ tokeniser (mirror of the model's input convention)
-_INT = re.compile(r'-?(0|[1-9][0-9]*)\Z')
-_DEC = re.compile(r'(-?)([0-9]+)\.([0-9]+)\Z')
-
-
-def tok(s):
-    if s == ':':
-        return ('colon',)
-    if _INT.match(s) and s != '-0':
-        return ('int', int(s))
-    m = _DEC.match(s)
-    if m:
-        v = int(m.group(2) + m.group(3))
-        return ('dec', -v if m.group(1) else v, len(m.group(3)))
-    return ('word', s)
-
-
-def tokenize(text):
-    lines = text.split('\n')
-    if lines and lines[-1] == '':
-        lines.pop()
-    return [[tok(t) for t in l.replace(':', ' : ').split()] for l in lines]
-
-
-def coq_tok(t):
-    if t[0] == 'int':
-        return 'TInt %s' % (('(%d)' % t[1]) if t[1] < 0 else str(t[1]))
-    if t[0] == 'dec':
-        return 'TDec %s %d%%nat' % (('(%d)' % t[1]) if t[1] < 0 else str(t[1]), t[2])
-    if t[0] == 'colon':
-        return 'TColon'
-    return 'TWord "%s"%%string' % t[1].replace('"', '""')
-
-
-def coq_lines(lines):
-    return '[' + '; '.join('[' + '; '.join(coq_tok(t) for t in l) + ']' for l in lines) + ']'
+# ------------------------------------------------------------------ rendering for Coq
+def coq_str(text):
+    """a Coq string literal holding exactly the characters of text (control characters are written raw)"""
+    assert all(ord(ch) < 128 and ch != '\0' for ch in text), 'generated texts are 7-bit ASCII'
+    return '"' + text.replace('"', '""') + '"%string'
 
 
 def zl(xs):
@@ -79,20 +60,52 @@ WORDS = ['C101', 'VEHICLE', 'NUMBER', 'CAPACITY', 'CUSTOMER', 'CUST', 'NO.', 'XC
 
 
 def sep(rng):
-    return rng.choice([' ', ' ', '  ', '\t', '   ', ' \t '])
+    return rng.choice([' ', ' ', ' ', '  ', '\t', '   ', ' \t ', '\x0b', ' \x0c', '\r '])
 
 
 def fmt_line(rng, toks, pretty):
     if pretty:
         return ' '.join(toks)
     lead = rng.choice(['', '', ' ', '    ', '\t'])
-    trail = rng.choice(['', '', ' ', '\r', ' \t'])
+    trail = rng.choice(['', '', ' ', '\r', ' \t', '\x0c', '\x0b\r'])
     out = lead
     for k, t in enumerate(toks):
         if k:
             out += sep(rng)
         out += t
     return out + trail
+
+
+def spell(rng, v, kind, plain=False):
+    """a text that Rust's str::parse of the column's type (kind: 'i32' | 'usize' | 'f64') reads as the integer v"""
+    s = str(v)
+    if plain or not rng.chance(1, 5):
+        return s
+    k = rng.below(6 if kind == 'f64' else 3)
+    a, neg = str(abs(v)), v < 0
+    sign = '-' if neg else ''
+    if k == 0 or (k == 2 and (v != 0 or kind == 'usize')):
+        return s if neg else '+' + s
+    if k == 1:
+        return sign + '0' * rng.range(1, 3) + a
+    if k == 2:
+        return '-0'
+    if k == 3:
+        return s + rng.choice(['.', '.0', '.000', 'e0', 'E0', 'e+0', 'e-0', '.0E+00'])
+    if k == 4:
+        return s + '0' + rng.choice(['e-1', 'E-1', '.0e-1'])
+    return sign + (a[:-1] or '0') + '.' + a[-1] + rng.choice(['e1', 'E+1', 'e01'])
+
+
+EXOTIC_F64 = ['2.4999999999999999999', '0.49999999999999999', '1e3', '-1E2', 'inf', '-inf', 'nan', 'NaN', 'Infinity', '-INFINITY',
+              '1e400', '-1e-400', '2147483647.5', '-2147483648.5', '3000000000', '-3000000000', '12345678.5', '0.5', '1.5', '2.5',
+              '-0.5', '+.5e1', '5.e-1', '-0', '1e999999999', '1e-999999999', '4.5000000000000000001', '1.4999999999999998',
+              '1.49999999999999989', '8388608.5', '8388607.5', '4503599627370496.5', '0.500000000000000000000000001',
+              '1073741823.5', '0.25', '0.2500000000000000000001', '6.5', '-6.5', '1.5e0', '15e-1', '0.15E+1', '99999999999999999999']
+EXOTIC_I32 = ['+0', '-0', '0000', '2147483647', '-2147483648', '+7', '-007', '00012', '+2147483647']
+EXOTIC_NAT = ['+0', '0000', '2147483647', '+7', '00012', '007']
+BAD_NUMBERS = ['2147483648', '-2147483649', '-2147483648', '-2147483648', '-inf', '18446744073709551616', '99999999999999999999', '+', '-', '--5', '+-5', '5:', '0x10',
+               '1_000', '1e3', '5.', '.5', 'inf', 'nan', '1.5', '-0', '+ 5', '5-', '']
 
 
 def junk_line(rng):
@@ -175,12 +188,23 @@ def print_solomon(rng, I, pretty=False):
         h1 = [junk_line(rng) for _ in range(4)]
         h2 = [junk_line(rng) for _ in range(4)]
 
+    ex = bool(I.get('exotic')) and not pretty
+
     def cl(c, extra=False):
-        t = [str(c[k]) for k in ('id', 'x', 'y', 'dem', 's', 'e', 'srv')]
+        t = [spell(rng, c[k], 'i32', pretty) for k in ('id', 'x', 'y', 'dem', 's', 'e', 'srv')]
+        if ex:
+            for col in (1, 2, 4, 5):
+                if rng.chance(1, 3):
+                    t[col] = rng.choice(EXOTIC_I32)
+            for col in (0, 3, 6):
+                if rng.chance(1, 5):
+                    t[col] = rng.choice(EXOTIC_NAT)
         if extra:
             t += [rng.choice(['0', 'x', '17', 'TIME'])]
         return fmt_line(rng, t, pretty)
-    vt = [str(I['number']), str(I['cap'])]
+    vt = [spell(rng, I['number'], 'usize', pretty), spell(rng, I['cap'], 'usize', pretty)]
+    if ex and rng.chance(1, 3):
+        vt[1] = rng.choice(EXOTIC_NAT + ['18446744073709551615', '4294967296', '2147483648'])
     if not pretty and rng.chance(1, 10):
         vt.append(rng.choice(['1', 'speed']))
     lines = h1 + [fmt_line(rng, vt, pretty)] + h2 + [cl(I['depot'], not pretty and rng.chance(1, 12))]
@@ -221,9 +245,9 @@ def gen_lilim(rng):
 
 def print_lilim(rng, I, pretty=False):
     def nl(n, dem, psib, dsib):
-        t = [str(v) for v in (n['id'], n['x'], n['y'], dem, n['s'], n['e'], n['srv'], psib, dsib)]
+        t = [spell(rng, v, 'i32', pretty) for v in (n['id'], n['x'], n['y'], dem, n['s'], n['e'], n['srv'], psib, dsib)]
         return '\t'.join(t) if pretty else fmt_line(rng, t, False)
-    lines = [fmt_line(rng, [str(I['number']), str(I['cap']), str(I['speed'])], pretty)]
+    lines = [fmt_line(rng, [spell(rng, I[k], 'usize', pretty) for k in ('number', 'cap', 'speed')], pretty)]
     lines.append(nl(I['depot'], 0, 0, 0))
     for k, r in I['order']:
         rq = I['reqs'][r]
@@ -235,9 +259,10 @@ def print_lilim(rng, I, pretty=False):
 
 
 def dec_str(rng, v, style):
-    """print the integer v (style 0), v.000 (style 1), or a genuine decimal that rounds to v (style 2)"""
+    """print the integer v (style 0: any spelling f64::from_str reads as v), v.000 (style 1), or a genuine decimal that
+    rounds to v (style 2)"""
     if style == 0:
-        return str(v)
+        return spell(rng, v, 'f64')
     if style == 1:
         return '%d.%s' % (v, '0' * rng.range(1, 5))
     # style 2: v + f with |f| <= .5 (ties away from zero)
@@ -287,19 +312,30 @@ def print_tsplib(rng, I, pretty=False):
     def kv(k, v):
         if pretty:
             return '%s : %s' % (k, v)
-        return rng.choice(['', ' ']) + k + rng.choice([' : ', ': ', ' :', ':', '  :\t']) + v + rng.choice(['', ' ', '\r'])
+        return rng.choice(['', ' ', '\t']) + k + rng.choice([' : ', ': ', ' :', ':', '  :\t', '\x0c:\x0b']) + v + rng.choice(['', ' ', '\r', '\x0c'])
     style = 0 if pretty else I['style']
+    ex = bool(I.get('exotic')) and not pretty
+
+    def num(v, st=0):
+        if pretty:
+            return str(v)
+        if ex and rng.chance(1, 3):
+            return rng.choice(EXOTIC_F64)
+        return dec_str(rng, v, st)
     lines = [kv('NAME', 'test'), kv('COMMENT', 'generated instance')] if pretty or rng.chance(1, 2) else [junk_line(rng), junk_line(rng)]
-    lines += [kv('TYPE', 'CVRP'), kv('DIMENSION', str(len(I['nodes']))), kv('EDGE_WEIGHT_TYPE', 'EUC_2D'),
-              kv('CAPACITY', dec_str(rng, I['cap'], 1 if style and rng.chance(1, 4) else 0))]
+    lines += [kv('TYPE', 'CVRP'), kv('DIMENSION', str(len(I['nodes'])) if pretty or rng.chance(3, 4) else spell(rng, len(I['nodes']), 'f64')),
+              kv('EDGE_WEIGHT_TYPE', 'EUC_2D'),
+              kv('CAPACITY', num(I['cap'], 1 if style and rng.chance(1, 4) else 0))]
     lines.append(fmt_line(rng, ['NODE_COORD_SECTION'], pretty))
     for nd in I['nodes']:
-        lines.append(fmt_line(rng, [str(nd['id']), dec_str(rng, nd['x'], style), dec_str(rng, nd['y'], style)], pretty))
+        lines.append(fmt_line(rng, [str(nd['id']) if pretty or rng.chance(3, 4) else spell(rng, nd['id'], 'f64'),
+                                    num(nd['x'], style), num(nd['y'], style)], pretty))
     lines.append(fmt_line(rng, ['DEMAND_SECTION'], pretty))
     dn = I['nodes'] if pretty or rng.chance(2, 3) else rng.shuffle(I['nodes'])
     for nd in dn:
-        lines.append(fmt_line(rng, [str(nd['id']), str(nd['dem'])], pretty))
-    lines += [fmt_line(rng, ['DEPOT_SECTION'], pretty), fmt_line(rng, [str(I['depot'])], pretty),
+        lines.append(fmt_line(rng, [str(nd['id']) if pretty or rng.chance(3, 4) else spell(rng, nd['id'], 'f64'), num(nd['dem'])], pretty))
+    lines += [fmt_line(rng, ['DEPOT_SECTION'], pretty),
+              fmt_line(rng, [str(I['depot']) if pretty or rng.chance(3, 4) else spell(rng, I['depot'], 'f64')], pretty),
               fmt_line(rng, ['-1'], pretty), fmt_line(rng, ['EOF'], pretty)]
     return join_lines(rng, lines)
 
@@ -325,15 +361,22 @@ def mutate_text(rng, text, fmt):
     lines = text.split('\n')
     body = [k for k, l in enumerate(lines) if l.strip()]
     k = rng.below(8)
+    if fmt == 'tsplib' and rng.chance(1, 3):
+        k = 7
     if k == 0 and body:                       # drop a token
         i = rng.choice(body)
         t = lines[i].split()
         del t[rng.below(len(t))]
         lines[i] = ' '.join(t)
-    elif k == 1 and body:                     # replace a token by a word
+    elif k == 1 and body:                     # replace a token by a word / a number the column's parser rejects or saturates
         i = rng.choice(body)
         t = lines[i].split()
-        t[rng.below(len(t))] = rng.choice(['abc', 'x', 'N/A', 'CVRPTW', '1.5', '--'])
+        # never a huge count: the fleet size (Solomon line 5, Li&Lim line 1) and DIMENSION are allocated eagerly by the readers
+        counts = (fmt == 'solomon' and i == 4) or (fmt == 'lilim' and i == 0) or 'DIMENSION' in lines[i]
+        pool = ['abc', 'x', 'N/A', 'CVRPTW', '1.5', '--']
+        if not counts:
+            pool = pool + BAD_NUMBERS
+        t[rng.below(len(t))] = rng.choice(pool) or 'x'
         lines[i] = ' '.join(t)
     elif k == 2 and lines:                    # drop a line
         del lines[rng.below(len(lines))]
@@ -351,21 +394,53 @@ def mutate_text(rng, text, fmt):
         lines[i] = ' '.join(t)
     else:                                     # colon damage (matters for TSPLIB keys and init texts only)
         if body:
-            i = rng.choice(body)
-            lines[i] = lines[i].replace(':', rng.choice(['', '::', ' ']), 1) if ':' in lines[i] else lines[i] + ' :'
+            keyed = [j for j in body if ':' in lines[j]]
+            i = rng.choice(keyed) if keyed and rng.chance(3, 4) else rng.choice(body)
+            if ':' in lines[i] and rng.chance(1, 2):
+                # a second colon AFTER a well-formed "KEY : value" (split(':') yields three parts)
+                lines[i] = lines[i].rstrip('\r\x0c ') + rng.choice([' :', ' : 7', ':', ' :x'])
+            elif ':' in lines[i]:
+                lines[i] = lines[i].replace(':', rng.choice(['', '::', ' ']), 1)
+            else:
+                lines[i] = lines[i] + ' :'
     return '\n'.join(lines)
 
 
 # ------------------------------------------------------------------ generation
-def make_read_case(rng, fmt, malformed):
+def make_read_case(rng, fmt, malformed, exotic=False):
     I = GEN[fmt](rng)
-    pretty = rng.chance(1, 6)
+    pretty = rng.chance(1, 6) and not exotic
+    if exotic:
+        I['exotic'] = True
+        if fmt == 'tsplib' and rng.chance(1, 8):
+            # `id - 1` on i32 overflows for i32::MIN (a panic in the checked build the harness uses)
+            others = [nd for nd in I['nodes'] if nd['id'] != I['depot']]
+            if others:
+                others[rng.below(len(others))]['id'] = I32_MIN
     text = PRINT[fmt](rng, I, pretty)
     rounded = rng.chance(1, 2)
     if malformed:
         text = mutate_text(rng, text, fmt)
         return {'op': 'read', 'fmt': fmt, 'text': text, 'rounded': rounded, 'inst': None, 'malformed': True}
+    if exotic:
+        return {'op': 'read', 'fmt': fmt, 'text': text, 'rounded': rounded, 'inst': None, 'malformed': False, 'exotic': True}
     return {'op': 'read', 'fmt': fmt, 'text': text, 'rounded': rounded, 'inst': I, 'malformed': False}
+
+
+def gen_cost(rng):
+    """a non-negative double num / 2^shift (exact), incl. ties of the third decimal (x.125, x.375, x.625) and integers"""
+    k = rng.below(6)
+    if k == 0:
+        return (rng.choice([0, 7, rng.range(0, 100000)]), 0)
+    if k == 1:
+        return (rng.range(0, 8000) * 8 + rng.choice([1, 3, 5, 7]), 3)          # .125 .375 .625 .875: ties to even
+    if k == 2:
+        return (rng.range(0, 1 << 20), rng.choice([1, 2, 4, 7]))
+    if k == 3:
+        return (rng.range(0, 1 << 40), rng.range(20, 36))                      # many binary digits (sqrt sums)
+    if k == 4:
+        return (rng.choice([199, 1999, 19999, 3 * 199]) * 128 + rng.choice([0, 1, 127, 64, 63, 65]), 7)   # around x.99 / carries
+    return (rng.range(0, 10 ** 6) * 4 + rng.below(4), 2)
 
 
 def make_init_case(rng, fmt):
@@ -382,26 +457,80 @@ def make_init_case(rng, fmt):
         prev = c
     if not rng.chance(1, 4):
         routes = [r for r in routes if r] or [perm]
+    num, shift = gen_cost(rng)
     case = {'op': 'init', 'fmt': fmt, 'text': text, 'rounded': rng.chance(1, 2), 'inst': I,
-            'routes': [[str(x) for x in r] for r in routes], 'cost': rng.choice([0, 7, rng.range(0, 100000)])}
+            'routes': [[str(x) for x in r] for r in routes], 'cost_num': num, 'cost_shift': shift, 'complete': True}
+    k = rng.below(8)
+    if k == 0 and perm:
+        # INCOMPLETE solution (the property does not speak about it; model = code: the rest is reported as unassigned).
+        # write_text_solution only looks at `solution.unassigned`, which the hand-built Solution leaves empty.
+        drop = perm[rng.below(len(perm))]
+        case['routes'] = [[x for x in r if x != str(drop)] for r in case['routes']]
+        case['complete'] = False
+    elif k == 2 and perm:
+        # a Solution that lists a job as unassigned: write_text_solution refuses it
+        drop = perm[rng.below(len(perm))]
+        case['routes'] = [[x for x in r if x != str(drop)] for r in case['routes']]
+        case['complete'] = False
+        case['mark_unassigned'] = [str(drop)]
+        return case
+    elif k == 1 and perm and len(case['routes']) >= 2:
+        # an id in two routes (not a solution either): both readers and writers keep what is there
+        dup = str(perm[rng.below(len(perm))])
+        tgt = [r for r in case['routes'] if dup not in r]
+        if tgt:
+            tgt[0].insert(rng.below(len(tgt[0]) + 1), dup)
+            case['complete'] = False
     if rng.chance(1, 4):
-        # hand-made initial solution text: junk lines, odd spacing, maybe unknown ids / too many routes
+        # hand-made initial solution text: junk lines, odd spacing, maybe unknown ids / too many routes / odd spellings
         lines = []
         rs = [list(r) for r in routes]
-        kind = rng.below(5)
+        kind = rng.below(7)
         if kind == 0 and ids:
             rs[rng.below(len(rs))].append(max(ids) + 1000)                  # unknown id -> panic
         elif kind == 1:
             rs = rs + [[ids[0]]] * (nveh + 1 - len(rs))                      # more routes than vehicles -> panic
-        for k, r in enumerate(rs):
+        for k2, r in enumerate(rs):
             if rng.chance(1, 4):
                 lines.append(rng.choice(['', 'Solution', 'Cost 12.50', 'a b c']))
-            lines.append(rng.choice(['Route %d:', 'Route %d :', 'R%d:', ' route # %d :  ']) % (k + 1) + ' ' + sep(rng).join(str(x) for x in r))
+            lines.append(rng.choice(['Route %d:', 'Route %d :', 'R%d:', ' route # %d :  ', '\tRoute %d\x0b:\x0c']) % (k2 + 1) + ' '
+                         + sep(rng).join(str(x) for x in r) + rng.choice(['', '', ' ', '\r']))
         lines.append(rng.choice(['Cost 828.94', '', 'Cost: 12', 'cost 1']))
         if kind == 2:
             lines.append('Route 9: 1 : 2')                                   # two colons -> skipped
-        case['init_text'] = '\n'.join(lines)
+        elif kind == 3 and ids:
+            # the ids are looked up as STRINGS: "+7", "007", "7.0" are unknown ids -> panic
+            lines.insert(0, 'Route 1: ' + rng.choice(['+%d', '00%d', '%d.0', '%de0']) % ids[0])
+        elif kind == 4:
+            lines.insert(0, rng.choice(['Route 1:', ':', ' : ', 'Route 1:\t\r']))                # a route without jobs
+        case['init_text'] = '\n'.join(lines) + rng.choice(['', '\n'])
     return case
+
+
+PARSE_WORDS = ['0', '5', '+5', '-5', '007', '-007', '+007', '-0', '+0', '+', '-', '', '5:', ':', '1e3', '1E3', '1e+3', '1e-3', '1e', 'e3',
+               '5.', '.5', '.', '-.5', '+.5', '1.5', '2.5', '-2.5', '0.5', '-0.5', '2.4999999999999999999', '0.49999999999999999',
+               'inf', '-inf', '+inf', 'Inf', 'INFINITY', 'infinity', 'infinit', 'nan', 'NaN', '-nan', 'nano', '2147483647', '2147483648',
+               '-2147483648', '-2147483649', '4294967295', '18446744073709551615', '18446744073709551616', '99999999999999999999',
+               '1e400', '-1e400', '1e-400', '1e999999999', '1e-999999999', '0x10', '1_000', '--5', '+-5', '5-', '5e0.5', '5e+', '1.2.3',
+               '00000000000000000000000000005', '2147483647.5', '2147483646.5', '-2147483648.5', '1.4999999999999998',
+               '4503599627370496.5', '9007199254740993', '0.1e1', '10e-1', '123456789012345678e-9', '0.000000000000000000001e21']
+
+
+def make_prim_case(rng):
+    if rng.chance(1, 2):
+        ws = [rng.choice(PARSE_WORDS) for _ in range(12)]
+        for _ in range(4):
+            v = rng.choice([rng.range(-50, 50), rng.range(-2 ** 31, 2 ** 31 - 1), rng.range(0, 2 ** 40)])
+            ws.append(spell(rng, v, rng.choice(['i32', 'f64']), False))
+            ws.append('%d.%s' % (rng.range(0, 3000), rng.choice(['5', '50', '4999999999999999', '5000000000000001', '49999999999999999999', '25'])))
+        return {'op': 'parse', 'fmt': 'solomon', 'text': '', 'rounded': False, 'inst': None, 'malformed': False, 'words': ws}
+    if rng.chance(1, 6):
+        return {'op': 'import', 'fmt': 'solomon', 'text': '', 'rounded': False, 'inst': None, 'malformed': False,
+                'names': rng.shuffle(['csv', 'solomon', 'lilim', 'tsplib', 'pragmatic', 'CSV', '', 'csv ', 'hre'])}
+    parts = []
+    for _ in range(rng.range(1, 8)):
+        parts.append(rng.choice(['', ' ', '\t', '\r', '\x0b', '\x0c', '\n', '\n', 'a', 'b1', '12', ':', 'x:y', '-3', '\r\n', '  ', 'w w']))
+    return {'op': 'words', 'fmt': 'solomon', 'text': ''.join(parts), 'rounded': False, 'inst': None, 'malformed': False}
 
 
 def generate(rng, tier, n):
@@ -409,32 +538,54 @@ def generate(rng, tier, n):
     for _ in range(n):
         r = rng.below(100)
         fmt = rng.choice(['solomon', 'lilim', 'tsplib'])
-        if r < 63:
+        if r < 55:
             cases.append(make_read_case(rng, fmt, False))
+        elif r < 63:
+            cases.append(make_read_case(rng, rng.choice(['solomon', 'tsplib']), False, exotic=True))
         elif r < 75:
             cases.append(make_read_case(rng, fmt, True))
-        else:
+        elif r < 97:
             cases.append(make_init_case(rng, rng.choice(['solomon', 'tsplib'])))
+        else:
+            cases.append(make_prim_case(rng))
     # every third case is read the way `vrp-cli solve <fmt> <file> [--round]` reads it: from a file, through the format
-    # registry of vrp-cli (extensions/solve/formats.rs get_formats(is_rounded, ..)); no random draw, the stream is unchanged
+    # registry of vrp-cli (extensions/solve/formats.rs get_formats(is_rounded, ..)): problem reader, and for init cases the
+    # registry's SolutionWriter and InitSolutionReader; no random draw, the stream is unchanged
     for k, c in enumerate(cases):
-        if k % 3 == 1:
+        if k % 3 == 1 and c['op'] in ('read', 'init'):
             c['via'] = 'cli'
+            if c['op'] == 'read' and k % 60 == 1:
+                # a name the registry does not know (names are case-sensitive)
+                c['cli_name'] = ['Solomon', 'tsp', 'lilim ', 'csv', ''][(k // 60) % 5]
+            if c['op'] == 'init' and k % 45 == 1 and c['fmt'] == 'solomon':
+                # Li&Lim has no initial-solution reader: the registry entry is `unimplemented!()`
+                c['cli_init_name'] = 'lilim'
     return cases
 
 
 # ------------------------------------------------------------------ model side
 def model_term(c):
-    lines = tokenize(c['text'])
     b = 'true' if c['rounded'] else 'false'
+    if c['op'] == 'parse':
+        return '[' + '; '.join('run_parse %s' % coq_str(w) for w in c['words']) + ']'
+    if c['op'] == 'words':
+        return 'run_words %s' % coq_str(c['text'])
+    if c['op'] == 'import':
+        return 'run_import_known [%s]' % '; '.join(coq_str(n) for n in c['names'])
     if c['op'] == 'read':
-        return 'run_%s %s %s' % (c['fmt'], b, coq_lines(lines))
+        if c.get('via') == 'cli':
+            return 'run_cli_read %s %s %s' % (coq_str(c.get('cli_name', c['fmt'])), b, coq_str(c['text']))
+        return 'run_%s_text %s %s' % (c['fmt'], b, coq_str(c['text']))
     I = c['inst']
     known, nveh = job_ids_of(I), nveh_of(I)
+    rd = ('run_cli_init %s' % coq_str(c.get('cli_init_name', c['fmt']))) if c.get('via') == 'cli' else 'run_init_chars'
     if 'init_text' in c:
-        return '(@nil (list (list Z)), run_init %s %d %s)' % (zl(known), nveh, coq_lines(tokenize(c['init_text'])))
+        return '(@nil Z, %s %s %d (str %s))' % (rd, zl(known), nveh, coq_str(c['init_text']))
     rs = '[' + '; '.join(zl([int(x) for x in r]) for r in c['routes']) + ']'
-    return '(run_write %s %d, run_init %s %d (write_solution %s %d))' % (rs, c['cost'], zl(known), nveh, rs, c['cost'])
+    if 'mark_unassigned' in c:
+        return 'run_write_checked %s %s %d %d' % (zl([int(x) for x in c['mark_unassigned']]), rs, c['cost_num'], c['cost_shift'])
+    return '(run_write_text %s %d %d, %s %s %d (write_solution_text %s %d %d%%nat))' % (
+        rs, c['cost_num'], c['cost_shift'], rd, zl(known), nveh, rs, c['cost_num'], c['cost_shift'])
 
 
 # ------------------------------------------------------------------ expected values computed from the abstract instance
@@ -508,11 +659,11 @@ def impl_jobs_view(P):
 def oracle(c, impl):
     """the property on the implementation's own output: the dumped Problem is exactly the abstract instance"""
     v = []
-    if c.get('malformed'):
-        return v        # totality on malformed text is not part of the property
+    if c.get('malformed') or c.get('exotic') or c['op'] in ('parse', 'words', 'import') or 'cli_name' in c:
+        return v        # totality on malformed text / texts without an abstract instance are not part of the property
     fmt = c['fmt']
-    if c['op'] == 'init' and 'init_text' in c:
-        return v        # hand-made initial-solution texts: only model vs implementation is compared
+    if c['op'] == 'init' and ('init_text' in c or not c.get('complete', True) or 'cli_init_name' in c):
+        return v        # hand-made texts, incomplete route sets, ids in two routes: only model vs implementation is compared
     if 'panic' in impl:
         return [{'class': '%s-%s-panic' % (fmt, c['op']), 'what': 'well-formed %s text: %s' % (fmt, impl['panic'])}]
     if c['op'] == 'init':
@@ -633,8 +784,39 @@ def model_single_view(row, coords, prefix):
 
 
 def compare(c, impl, model):
+    if c['op'] == 'parse':
+        if 'panic' in impl:
+            return 'impl panicked: %s' % impl['panic']
+        for w, got, m in zip(c['words'], impl['words'], model):
+            exp = [[1, got[0]] if got[0] is not None else [0, 0],
+                   [1, int(got[1])] if got[1] is not None else [0, 0],
+                   [1, got[2]] if got[2] is not None else [0, 0]]
+            if [list(x) for x in m] != exp:
+                return 'word %r: Rust (i32, usize, f64.round() as i32) = %s, model %s' % (w, got, m)
+        return None
+    if c['op'] == 'words':
+        if 'panic' in impl:
+            return 'impl panicked: %s' % impl['panic']
+        got = [[[ord(ch) for ch in w] for w in l] for l in impl['lines']]
+        if got != [[list(w) for w in l] for l in model]:
+            return 'read_line + split_whitespace of %r: impl %s model %s' % (c['text'], impl['lines'], model)
+        return None
+    if c['op'] == 'import':
+        if 'panic' in impl:
+            return 'impl panicked: %s' % impl['panic']
+        if [1 if x else 0 for x in impl['known']] != list(model):
+            return 'import registry knows %s of %s, model %s' % (impl['known'], c['names'], model)
+        return None
+    if c['op'] == 'init' and 'mark_unassigned' in c:
+        wstat, wcodes = model
+        if 'panic' in impl:
+            return 'impl panicked: %s' % impl['panic']
+        got = 1 if impl['status'] == 'write-err' else 0 if impl['status'] == 'ok' else 9
+        if got != wstat:
+            return 'writing a solution with unassigned jobs: impl %s (%s), model %d' % (impl['status'], impl.get('err'), wstat)
+        return None
     if c['op'] == 'init':
-        wtoks, (mstat, mroutes) = model
+        wcodes, (mstat, mroutes, munassigned) = model
         if 'panic' in impl:
             return None if mstat == 2 else 'impl panicked (%s), model status %d' % (impl['panic'], mstat)
         if impl['status'] != 'ok':
@@ -642,24 +824,19 @@ def compare(c, impl, model):
         if mstat != 0:
             return 'impl ok, model status %d' % mstat
         if 'init_text' not in c:
-            def ft(t):
-                if t[0] == 'int':
-                    return [0, t[1], 0]
-                if t[0] == 'dec':
-                    return [1, t[1], t[2]]
-                if t[0] == 'colon':
-                    return [2, 0, 0]
-                return [{'Route': 3, 'Cost': 4}.get(t[1], 5), 0, 0]
-            got = [[ft(t) for t in l] for l in tokenize(impl['written'])]
-            if got != [[list(t) for t in l] for l in wtoks]:
-                return 'written text %r tokenises to %s, model writes %s' % (impl['written'], got, wtoks)
+            if [ord(ch) for ch in impl['written']] != list(wcodes):
+                return 'written text %r, model writes %r' % (impl['written'], ''.join(chr(x) for x in wcodes))
         if [[int(x) for x in r] for r in impl['routes']] != [list(r) for r in mroutes]:
             return 'routes: impl %s model %s' % (impl['routes'], mroutes)
+        if sorted(int(x) for x in impl['unassigned_ids']) != sorted(munassigned):
+            return 'unassigned: impl %s model %s' % (impl['unassigned_ids'], munassigned)
         return None
     mstat, mjobs, mfleet, mcoords, mmatrix = model
     if 'panic' in impl:
         return None if mstat == 2 else 'impl panicked (%s), model status %d' % (impl['panic'], mstat)
-    istat = 0 if impl['status'] == 'ok' else 1
+    if mstat == 3:
+        return 'model: text outside the 7-bit ASCII domain (generator error)'
+    istat = {'ok': 0, 'unknown-format': 4}.get(impl['status'], 1)
     if istat != mstat:
         return 'status: impl %s (%s), model %d' % (impl['status'], impl.get('err'), mstat)
     if istat != 0:
@@ -709,6 +886,8 @@ def compare(c, impl, model):
         if g != m:
             return 'vehicle %d: impl %s model %s' % (k, g, m)
     n = len(coords)
+    if c.get('exotic'):
+        return None     # numbers at the machine limits: squared distances are not exact in f64, the matrix is not compared
     idx = {xy: k for k, xy in enumerate(mcoords)}
     for a in range(n):
         for b in range(n):
@@ -719,7 +898,7 @@ def compare(c, impl, model):
 
 
 def nontrivial_key(c, impl):
-    if 'panic' in impl or c.get('malformed'):
+    if 'panic' in impl or c.get('malformed') or c['op'] in ('parse', 'words', 'import'):
         return None
     if c['op'] == 'init':
         return ('init', c['text'], repr(c['routes']), c.get('init_text')) if len(c['routes']) >= 2 else None
@@ -729,7 +908,10 @@ def nontrivial_key(c, impl):
 
 
 def classify(c, impl):
-    labs = ['op=' + c['op'], 'fmt=' + c['fmt'], 'stream=' + ('malformed' if c.get('malformed') else 'valid'),
+    if c['op'] in ('parse', 'words', 'import'):
+        return ['op=' + c['op']]
+    labs = ['op=' + c['op'], 'fmt=' + c['fmt'],
+            'stream=' + ('malformed' if c.get('malformed') else 'exotic' if c.get('exotic') else 'valid'),
             'read-through=' + ('vrp-cli format registry' if c.get('via') == 'cli' else 'vrp-scientific')]
     if 'panic' in impl:
         labs.append('result=panic')
@@ -742,6 +924,7 @@ def classify(c, impl):
             labs.append('rounded=' + str(c['rounded']))
     if c['op'] == 'init':
         labs.append('init-text=' + ('hand-made' if 'init_text' in c else 'written'))
+        labs.append('init-complete=' + str(bool(c.get('complete', True))))
     return labs
 
 
@@ -769,17 +952,26 @@ def shrink_candidates(c):
         yield {'op': 'read', 'fmt': I['fmt'], 'text': PRINT[I['fmt']](R0(), J, True), 'rounded': c['rounded'], 'inst': J, 'malformed': False}
 
 
-MANIFEST_TEXT = ('Machine-checked proof (Coq, no axioms) over an executable model of the Solomon, Li&Lim and TSPLIB readers on tokenised lines: '
-                 'for every well-formed abstract instance, parsing its printed text yields exactly its customers (ids, demands, windows, service '
-                 'times), depot, fleet size, capacity and a duplicate-free coordinate index whose entries are the customers\' coordinates '
-                 '(parse_print_solomon / tsplib for every hash-iteration order; Li&Lim with ids and signed demands of the pairs for every file '
-                 'layout that keeps pickups in request order); rounded distances are characterised by (2r-1)^2 <= 4s < (2r+1)^2; the '
-                 'initial-solution text round trip read_init(write S) = S holds for all complete route sets. The model is tied to /repo on every '
-                 'run: generated instances are printed, read by the real read_solomon/read_lilim/read_tsplib/read_init_solution/write_* and the '
-                 'dumped core Problem (jobs, places, demand dimension, fleet, matrix through TransportCost) is diffed against the model evaluated by '
-                 'vm_compute and against the abstract instance.')
-MANIFEST_NOTE = ('Trusted: Coq kernel + vm_compute; tokeniser and generators; IEEE sqrt (unrounded distances are checked bit-exactly against '
-                 'math.sqrt of the exact squared distance the model computes). Not modelled: Jobs::new / goal construction, i32 overflow of id-1, '
-                 'text outside the generated alphabet. Finding C13-F1 (Li&Lim sub-jobs lost id and demand) was repaired in /repo commit 164f50b; '
-                 'its corpus case and two mutants keep it detectable.')
+MANIFEST_TEXT = ('Machine-checked proof (Coq, no axioms) over an executable model of the Solomon, Li&Lim and TSPLIB readers that starts at the '
+                 'CHARACTERS of the file (read_line, split_whitespace, str::parse of i32/usize/f64 incl. signs, leading zeros, exponents, the '
+                 'correctly rounded double of a decimal; split(\':\') + trim of the TSPLIB keys): for every well-formed abstract instance and every '
+                 'layout (arbitrary white space from {space,TAB,CR,VT,FF}, sign/zero-padding of each number, header lines, final newline) parsing '
+                 'the printed text yields exactly its customers (ids, demands, windows, service times), depot, fleet size, capacity and a '
+                 'duplicate-free coordinate index holding the customers\' coordinates (C13_parse_print_{solomon,lilim,tsplib}_text, TSPLIB for '
+                 'every hash-iteration order, Li&Lim with signed pickup/delivery pairs for every file layout keeping pickups in request order); '
+                 '"bind exactly": the problem read from the characters, walked by the step-by-step feasibility simulation of Spec/Feasible.v '
+                 '(the notion of C06/C01) with the rounded Euclidean matrix, accepts exactly the routes the textbook Solomon VRPTW / Li&Lim PDPTW '
+                 '/ CVRP definition stated on the instance accepts (C13_{solomon,lilim,tsplib}_binds); rounded distances are characterised by '
+                 '(2r-1)^2 <= 4s < (2r+1)^2; the written solution text (character by character, "Cost {:.2}" = nearest hundredth, ties to even) '
+                 'read back as an initial solution gives the same routes and the unmentioned jobs as unassigned. Guards are explicit (i32 / '
+                 'non-negative fields, node ids above i32::MIN) and the error branches are theorems (out-of-range numbers panic, TSPLIB numbers '
+                 'saturate, id - 1 overflow). The model is tied to /repo on every run: generated instances are printed, read by the real '
+                 'read_solomon/read_lilim/read_tsplib (also through the vrp-cli format registry), and the dumped core Problem is diffed against '
+                 'the model reading the same characters under vm_compute and against the abstract instance; sub-stream c13_bind asks the real '
+                 'constraints of the read problem (eval_job_insertion_in_route, Solver) about routes tuned to be feasible / infeasible by one unit.')
+MANIFEST_NOTE = ('Trusted: Coq kernel + vm_compute; generators; f64::from_str and sqrt correctly rounded (unrounded distances are checked '
+                 'bit-exactly against math.sqrt of the exact squared distance the model computes). Not modelled: Jobs::new / goal construction '
+                 '(exercised by c13_bind), UTF-8 / non-ASCII white space, a huge DIMENSION / fleet size (eager allocation). Overflow branches follow '
+                 'the checked build of the harness (id - 1, i32::MIN.abs() panic; a release build wraps). Finding C13-F1 (Li&Lim sub-jobs lost id '
+                 'and demand) was repaired in /repo commit 164f50b; its corpus case and two mutants keep it detectable.')
 MANIFEST_TECHNIQUE = 'Coq proof over executable model + vm_compute differential correspondence with the Rust implementation'
